@@ -385,6 +385,16 @@ def cases(tier, seed):
                             for enc in (encs or [ENCS[(n + ti + N) % 3]]):
                                 dests.append((ax1(kind, f, l, st, N, enc),))
                         out += multi_dest_cases('%s1-%s' % (kind, dst), ty, (N,), dests, dst, cfg, rng, RHS_1D, 5 if kind == 'seq' else 3, 'x', nkeep=1 if not wide else 2)
+        # ---------------- tall rank-2 destinations: more rows than the vector width, one or two contiguous columns ----------------
+        # (row count and column count play different roles in the vector/remainder split of the 2-D views)
+        if main:
+            for ti, ty in enumerate(TYPES):
+                V = vec_elems(isa, ty)
+                for (R, Cc) in ([(V + 1, 1), (2 * V, 2)] if V <= 8 else [(V + 1, 1)]):
+                    Cw = Cc + 2
+                    for kind in ('seq', 'fseq'):
+                        axes = (ax1(kind, 0, R, 1, R, 'pos'), ax1(kind, 1, 1 + Cc, 1, Cw, 'pos'))
+                        out += dest_cases('%s2tall-own' % kind, ty, (R, Cw), axes, 'own', cfg, rng, ['tensor'] if not dense else ['tensor', 'scalar', 'add'], ident='r%d.c%d' % (R, Cc), nkeep=None)
         for ti, ty in enumerate(TYPES):
             V = vec_elems(isa, ty)
             # ---------------- destinations whose last-axis extent straddles the SIMD width ----------------
